@@ -47,9 +47,11 @@ Proof.
   all: match goal with |- context [coeffsQ ?n _ _] => famQ n end.
   all: unfold coeffsQ;
        match goal with F : family_of_name _ = _ |- _ => rewrite F end.
-  all: first
-    [ eexists; split; [reflexivity|]; apply rot_kappaQ_ge1; exact Hcs
-    | eexists; split; [vm_compute; reflexivity|]; vm_compute; discriminate ].
+  all: match goal with
+       | F : family_of_name _ = FRot _ _ |- _ =>
+         eexists; split; [reflexivity|]; apply rot_kappaQ_ge1; exact Hcs
+       | _ => eexists; split; [vm_compute; reflexivity|]; vm_compute; discriminate
+       end.
 Qed.
 
 (* the constant entries of the table, exactly *)
